@@ -63,6 +63,25 @@ ALREADY = """
   `SetOf._evaluate__` not passing `yield_when_false`; `ConclusionSelector._caching_enabled_` returning the switch
 - `ForAll` not emptying `solution_set`, extending `sources` in place, dropping its `condition._is_false_` guard; `AND` dropping `output.update(left_value)`
 - `Concatenate` reusing the first inner list, `concatenate(flatten(x))` short-circuited, `Concatenate._all_variable_instances_` returning []
+- removing / conditioning `self._child_._reset_cache_()` at the start of `An._evaluate__`; giving a domain-less variable a generator over the
+  registry at declaration; `HashedIterable.__eq__` / `_optimize_or` changes that make `or_` build a `Union`; `Flatten` yielding `HashedValue(id_=value.id_, …)`
+- `yield_final_output_from_cache(...)` called without / with a constant `yield_when_false`; `AND` dropping the `continue` (or returning) after a replay;
+  `ElseIf` looking its `right_cache` up before testing the left row, or replaying on `sources`; `dict.fromkeys((True, False), SeenSet())`
+- `IndexedCache.retrieve` asking `self.check(...)` first; `SeenSet.add` pruning stored constraints; `is_iterable` accepting `__getitem__`
+- `Variable.__iter__` handing out memoised binding dicts; `_extract_variables_and_expression` not copying the list of selected variables
+- `ForAll` projecting `condition_val` instead of `complete_val`, `self.solution_set.clear()`, completing unbound variables with `_evaluate__`
+  or without the recursive call; `condition_unique_variable_ids` restricted to `Variable`
+- `An.evaluate` using `next(results, None)`; `Index._apply_mapping_` treating None as a missing entry; `Entity._evaluate__` / `Comparator` /
+  `Concatenate` evaluating a value with `_evaluate__`
+- `Conclusion._reset_cache_` visiting `self.var`; `Variable._reset_only_my_cache_` guarded by `self._domain_.values`; `ConclusionSelector._reset_only_my_cache_`
+  not clearing `_conclusion_`; removing `Alternative._is_duplicate_output_`; `alternative_or_next` climbing in two separate loops;
+  `ExceptIf` updating `left_value` in place
+- a module-level alias of `SymbolicExpression._symbolic_expression_stack_`; `_process_output_and_update_values_` / `_instantiate_new_values_…` calling
+  user code without `_call_user_code_`; `symbolic_mode` restoring the hidden stack with `if hidden_stack:`; `__exit__` popping until it finds `self`;
+  the `@predicate` wrapper deferring only when an argument is symbolic
+- `MultipleSolutionFound.__init__` indexing its arguments; `update_cls_args` via `dataclasses.fields`; the `elif` order in
+  `extract_selected_variable_and_expression`; `symbolic_new` replacing quantified keyword arguments by `._var_`; `_warn_on_unbound_variables_` sizing the domain by iterating;
+  `HashedIterable.__iter__` replaying the live dict view; `Comparator` setting `_eval_parent_` on the wrong operand; `Not` remembering the operand it negated
 """
 TEMPLATE = """# Task
 
@@ -90,6 +109,10 @@ There is no network.
 Statement: {statement}
 
 Quantified over: {quant}
+
+IMPORTANT: be economical with the machine: it is shared. Do not run more than two python processes at a time, give every fuzzing /
+mutation loop a time limit, make sure nothing you started is still running when you finish (`pkill -f {w}` is fine), and aim to be
+done within about two hours.
 
 IMPORTANT: never use `git stash` (the stash is shared between worktrees of this repository and other people are working in sibling worktrees); use `git checkout -- src` / `git apply -R` to undo your edits, and keep copies of your patches as files.
 
